@@ -229,6 +229,18 @@ class Model(CallsMixin, BuiltinsMixin):
         out = FLOAT() if (sym == '/' or not both_int) else INT()
         if out.k == 'float':
             self._num_facets(out, sym, a, b, node, env)
+            # exponent arithmetic: keep the symbolic value of  p / 2, p / d, ...
+            if a.p is not None and b.has_const() and \
+                    isinstance(b.c, (int, float)) and b.c != 0 and \
+                    a.k in ('int', 'float'):
+                f = Fraction(b.c).limit_denominator(10**6)
+                if sym == '/':
+                    out.p = a.p.scale(1 / f)
+                elif sym == '*':
+                    out.p = a.p.scale(f)
+            elif a.p is not None and b.p is not None and sym in ('+', '-') \
+                    and a.k in ('int', 'float') and b.k in ('int', 'float'):
+                out.p = a.p + b.p if sym == '+' else a.p - b.p
         return out
 
     # --- facets on scalar / array arithmetic (U, G)
@@ -292,7 +304,7 @@ class Model(CallsMixin, BuiltinsMixin):
             return Lin(Fraction(v.c))
         if v.lg is not None and v.note == 'explin':
             return v.lg
-        if v.k == 'int' and v.p is not None:
+        if v.k in ('int', 'float') and v.p is not None:
             lin = _poly_to_lin(v.p)
             if lin is not None:
                 return lin
@@ -402,6 +414,29 @@ class Model(CallsMixin, BuiltinsMixin):
         self._num_facets(out, sym, a, b, node, env)
         # orthogonality: U * w (columns scaled) etc -> weighted
         out.orth = None
+        if sym == '*':
+            for x, y in ((a, b), (b, a)):
+                if x.k == 'arr' and y.k == 'arr' and x.dims is not None and \
+                        y.dims is not None:
+                    if x.orth == 'invsing' and len(x.dims) == 2 and \
+                            y.orth == 'rows' and x.src is not None and \
+                            y.src is not None and x.src[:3] == y.src[:3]:
+                        out.orth = 'whiten'
+                        out.src = x.src
+                    elif x.orth == 'cols' and len(y.dims) == 1 and \
+                            y.orth in ('sing', 'sigma'):
+                        out.orth = 'weighted'
+                    elif x.orth == 'cols' and len(y.dims) == 1 and \
+                            y.orth == 'halfvec':
+                        out.orth = 'half'
+        if sym == '/' and a.has_const() and b.k == 'arr' and \
+                b.orth in ('sing', 'sigma'):
+            out.orth = 'invsing'
+            out.src = b.src
+        if sym == '**' and a.k == 'arr' and a.orth in ('sing', 'sigma') and \
+                b.has_const() and b.c == 2:
+            out.orth = 'eig'
+            out.src = a.src
         if sym == '*' and (a.nonneg and b.nonneg):
             out.nonneg = True
         if sym == '**' and b.has_const() and b.c in (2, 2.0):
@@ -479,6 +514,23 @@ class Model(CallsMixin, BuiltinsMixin):
         if a.deg is not None and b.deg is not None:
             out.deg = _dadd(a.deg, b.deg, 1)
         out.orth = self.orth_matmul(a, b)
+        # Gram matrices  A @ A.T  /  A.T @ A  of one array
+        if isinstance(node, ast.BinOp) and len(da) == 2 and len(db) == 2:
+            l, r_ = node.left, node.right
+            if isinstance(r_, ast.Attribute) and r_.attr == 'T' and \
+                    isinstance(l, ast.Name) and \
+                    isinstance(r_.value, ast.Name) and r_.value.id == l.id:
+                out.src = ('gram', 'left', id(a), a)
+                out.unit = 2 * (a.unit if a.unit is not None else 1)
+            if isinstance(l, ast.Attribute) and l.attr == 'T' and \
+                    isinstance(r_, ast.Name) and \
+                    isinstance(l.value, ast.Name) and l.value.id == r_.id:
+                out.src = ('gram', 'right', id(b), b)
+                out.unit = 2 * (b.unit if b.unit is not None else 1)
+        if a.orth == 'whiten' and a.src is not None and \
+                a.src[0] == 'gram' and a.src[1] == 'left' and \
+                a.src[2] == id(b):
+            out.orth = 'rows'
         return out
 
     def orth_matmul(self, a, b):
@@ -632,6 +684,7 @@ class Model(CallsMixin, BuiltinsMixin):
         if attr == 'T':
             if base.dims is None:
                 return base.copy()
+            # (src is kept by copy())
             o = {'cols': 'rows', 'rows': 'cols'}.get(base.orth, base.orth)
             lay = None
             if base.lay is not None:
@@ -819,19 +872,41 @@ class Model(CallsMixin, BuiltinsMixin):
             r.uninit = base.uninit
             # column / row slices keep orthonormal columns / rows
             r.orth = self.orth_slice(base, comps)
+            r.src = base.src
         else:
-            r.orth = self.orth_slice(base, comps) if self._perm_index(comps) \
-                else None
+            keep = self._perm_index(comps) or (len(base.dims) == 1 and
+                                               len(comps) == 1 and
+                                               comps[0].k == 'arr' and
+                                               comps[0].idx == 'perm')
+            r.orth = self.orth_slice(base, comps) if keep else None
+            r.src = base.src if keep else None
         if base.idx is not None:
             r.idx = base.idx
         return r
 
     def _perm_index(self, comps):
-        return False
+        """Only full slices and at most one permutation index (argsort)."""
+        n = 0
+        for c in comps:
+            if c.k == 'arr' and c.idx == 'perm':
+                n += 1
+            elif c.k == 'slice' and all(x is None or x.k == 'none'
+                                        for x in c.items):
+                continue
+            else:
+                return False
+        return n == 1
 
     def orth_slice(self, base, comps):
-        if base.orth is None or base.dims is None or len(base.dims) != 2:
+        if base.orth is None or base.dims is None:
             return None
+        if len(base.dims) == 1 and base.orth in ('sigma', 'halfvec', 'eig',
+                                                 'sing', 'invsing'):
+            return base.orth            # any sub-vector of singular values
+        if len(base.dims) != 2:
+            return None
+        if self._perm_index(comps):
+            return base.orth            # permuting rows / columns
         cs = [c for c in comps if c.k != 'none']
         while len(cs) < 2:
             cs.append(AV('slice', items=[None, None, None]))
